@@ -50,6 +50,29 @@ def Genuine (T : Xfer) (a : Apdu) : Prop :=
     (T.count = 1 → a.seg = false ∧ a.data = T.P) ∧
     (T.count ≠ 1 → a.seg = true ∧ ∃ i, IsSeg T i a)
 
+/-- `Genuine`, with a constraint `N` on the index of the segment (the receiver
+    theorems need "not 256 or more segments away from what I expect") -/
+def GenuineN (T : Xfer) (N : Nat → Prop) (a : Apdu) : Prop :=
+  a.ty = T.ty → a.invokeId = T.id →
+    (T.count = 1 → a.seg = false ∧ a.data = T.P) ∧
+    (T.count ≠ 1 → a.seg = true ∧ ∃ i, IsSeg T i a ∧ N i)
+
+theorem GenuineN.genuine {T : Xfer} {N : Nat → Prop} {a : Apdu} (h : GenuineN T N a) : Genuine T a := by
+  intro h1 h2
+  obtain ⟨g1, g2⟩ := h h1 h2
+  refine ⟨g1, fun hn => ?_⟩
+  obtain ⟨s1, i, hi, _⟩ := g2 hn
+  exact ⟨s1, i, hi⟩
+
+/-- a genuine frame all of whose possible indices satisfy `N` -/
+theorem Genuine.toN {T : Xfer} {N : Nat → Prop} {a : Apdu} (h : Genuine T a)
+    (hN : ∀ i, IsSeg T i a → N i) : GenuineN T N a := by
+  intro h1 h2
+  obtain ⟨g1, g2⟩ := h h1 h2
+  refine ⟨g1, fun hn => ?_⟩
+  obtain ⟨s1, i, hi⟩ := g2 hn
+  exact ⟨s1, i, hi, hN i hi⟩
+
 theorem Xfer.WF.one {T : Xfer} (h : T.WF) (h1 : T.count = 1) : sliceOf T.P T.size 0 = T.P := by
   have := h.whole
   rw [h1] at this
@@ -174,30 +197,41 @@ theorem fillWindow_none {k : Key} {b : Body} {start : Nat} (hw : b.window = none
 
 /-! ### the receiver: the reassembly buffer -/
 
-/-- the reassembly buffer of a receiving transaction: segments 0..j accepted in
-    order, more to come, `lastSequenceNumber = j` (transfers of at most 256
-    segments: no wrap), a window agreed -/
-def RecvBuf (T : Xfer) (b : Body) : Prop :=
-  ∃ c j w, b.ctx = some c ∧ j + 1 < T.count ∧ b.lastSeq = j ∧
+/-- the reassembly buffer of a receiving transaction at position `j`: segments
+    0..j accepted in order, more to come, `lastSequenceNumber = j % 256`, a
+    window agreed -/
+def RecvAt (T : Xfer) (b : Body) (j : Nat) : Prop :=
+  ∃ c w, b.ctx = some c ∧ j + 1 < T.count ∧ b.lastSeq = j % 256 ∧
     c.data = slicesUpTo T.P T.size (j + 1) ∧ b.window = some w
 
-/-- in a transfer of at most 256 segments a genuine segment whose sequence
-    number is the next expected one IS the next segment -/
-theorem next_index {T : Xfer} (h256 : T.count ≤ 256) {i j : Nat} {a : Apdu} (hs : IsSeg T i a)
-    (hj : j + 1 < T.count) (hseq : a.seq = (j + 1) % 256) : i = j + 1 := by
-  have h1 := hs.lt
+def RecvBuf (T : Xfer) (b : Body) : Prop := ∃ j, RecvAt T b j
+
+/-- index `i` is less than 256 segments away from the segment the receiver
+    expects next (with modulo-256 sequence numbers anything farther away is
+    indistinguishable from the expected one) -/
+def NearIdx (T : Xfer) (b : Body) (i : Nat) : Prop :=
+  ∀ j, RecvAt T b j → i ≤ j + 256 ∧ j + 1 ≤ i + 255
+
+/-- a near genuine segment whose sequence number is the next expected one IS the next segment -/
+theorem next_index {T : Xfer} {i j : Nat} {a : Apdu} (hs : IsSeg T i a)
+    (hnear : i ≤ j + 256 ∧ j + 1 ≤ i + 255) (hseq : a.seq = (j % 256 + 1) % 256) : i = j + 1 := by
   have h2 := hs.seq
   rw [h2] at hseq
-  rw [Nat.mod_eq_of_lt (by omega), Nat.mod_eq_of_lt (by omega)] at hseq
-  exact hseq
+  omega
 
-/-- … and a genuine segment with sequence number 0 is the first -/
-theorem first_index {T : Xfer} (h256 : T.count ≤ 256) {i : Nat} {a : Apdu} (hs : IsSeg T i a)
+/-- … and one of the first 256 segments with sequence number 0 is the first -/
+theorem first_index {T : Xfer} {i : Nat} {a : Apdu} (hs : IsSeg T i a) (h256 : i < 256)
     (hseq : a.seq = 0) : i = 0 := by
-  have h1 := hs.lt
   have h2 := hs.seq
-  rw [h2, Nat.mod_eq_of_lt (by omega)] at hseq
-  exact hseq
+  rw [h2] at hseq
+  omega
+
+/-- in a transfer of at most 256 segments every index is near -/
+theorem near_of_le256 {T : Xfer} (h256 : T.count ≤ 256) {b : Body} {i : Nat} (hi : i < T.count) :
+    NearIdx T b i := by
+  intro j hj
+  obtain ⟨_, _, _, hlt, _⟩ := hj
+  omega
 
 /-- appending the next genuine segment extends the concatenation by one slice -/
 theorem buf_append {T : Xfer} {j : Nat} {a : Apdu} (hs : IsSeg T (j + 1) a) :
